@@ -1202,6 +1202,28 @@ def _unroll_literal_loops(fn, rf, log, q):
                     _n(st.iter) not in ref_loops and \
                     isinstance(st.target, (ast.Name, ast.Tuple)):
                 items = _literal_items(st.iter)
+                filt = None
+                filtered_local = None
+                if items is None and isinstance(st.iter, ast.Name):
+                    # for v in L  with  L = [x for x in (A, B, C) if c(x)]
+                    h = _single_assign(fn, st.iter.id)
+                    if h is not None and isinstance(h[2].value, ast.ListComp):
+                        lc = h[2].value
+                        g0 = lc.generators[0] if len(lc.generators) == 1 \
+                            else None
+                        if g0 is not None and isinstance(
+                                g0.target, ast.Name) and isinstance(
+                                    lc.elt, ast.Name) and \
+                                lc.elt.id == g0.target.id and \
+                                len(g0.ifs) <= 1 and sum(
+                                    1 for x in _own_nodes(fn) if isinstance(
+                                        x, ast.Name) and
+                                    x.id == st.iter.id) == 2:
+                            items = _literal_items(g0.iter)
+                            if items is not None:
+                                filt = (g0.target.id, g0.ifs[0]) \
+                                    if g0.ifs else None
+                                filtered_local = h
                 tnames = [st.target.id] if isinstance(st.target, ast.Name) \
                     else [e.id for e in st.target.elts
                           if isinstance(e, ast.Name)]
@@ -1238,14 +1260,25 @@ def _unroll_literal_loops(fn, rf, log, q):
                             st.target, ast.Name) else dict(zip(tnames,
                                                                c_.elts))
                         ren = {n_: '%s__%d' % (n_, k) for n_ in blocal}
+                        copies = []
                         for s_ in body:
                             cp = copy.deepcopy(s_)
                             cp = _Subst(sub).visit(cp)
                             for x in ast.walk(cp):
                                 if isinstance(x, ast.Name) and x.id in ren:
                                     x.id = ren[x.id]
-                            new.append(cp)
+                            copies.append(cp)
+                        if filt is not None:
+                            cond = _Subst({filt[0]: c_}).visit(
+                                copy.deepcopy(filt[1]))
+                            copies = [ast.copy_location(ast.If(
+                                test=cond, body=copies, orelse=[]), st)]
+                        new += copies
                     blk[i:i + 1] = new
+                    if filtered_local is not None:
+                        fb, fk, fs = filtered_local
+                        if fs in fb:
+                            fb.remove(fs)
                     log.append('%s: literal loop `for %s in %s` unrolled'
                                % (q, _n(st.target), _n(st.iter)))
                     i += len(new)
@@ -1309,6 +1342,29 @@ def _inline_temp(fn, name, allow_calls=False, ref_calls=None):
     loads = [x for x in _own_nodes(fn) if isinstance(x, ast.Name)
              and x.id == name and isinstance(x.ctx, ast.Load)]
     if not loads:
+        return False
+    # an object that is mutated through the local is not a value: never
+    # duplicate it
+    for n in _own_nodes(fn):
+        if isinstance(n, ast.Call) and isinstance(n.func, ast.Attribute) and \
+                isinstance(n.func.value, ast.Name) and \
+                n.func.value.id == name:
+            return False
+        if isinstance(n, (ast.Subscript, ast.Attribute)) and isinstance(
+                getattr(n, 'ctx', None), (ast.Store, ast.Del)):
+            r_ = n.value
+            while isinstance(r_, (ast.Subscript, ast.Attribute)):
+                r_ = r_.value
+            if isinstance(r_, ast.Name) and r_.id == name:
+                return False
+        if isinstance(n, ast.AugAssign):
+            r_ = n.target
+            while isinstance(r_, (ast.Subscript, ast.Attribute)):
+                r_ = r_.value
+            if isinstance(r_, ast.Name) and r_.id == name:
+                return False
+    if isinstance(val, (ast.List, ast.Dict, ast.Set, ast.ListComp,
+                        ast.DictComp, ast.SetComp)) and len(loads) > 1:
         return False
     if has_call and len(loads) > 1 and not allow_calls:
         return False
@@ -1565,6 +1621,75 @@ def _inline_indexed_comprehensions(fn, rf, log, q):
     ast.fix_missing_locations(fn)
 
 
+def _merge_accumulators(fn, rf, log, q):
+    """X = []; X.append(..) ...; Y += X   ->   Y.append(..) ...   for a list
+    X the reference does not know (collect-then-extend)."""
+    ref_locs = set(rf.get('locals', []))
+    for _ in range(6):
+        params, locs = local_order(fn)
+        done = False
+        for x in locs:
+            if x in ref_locs:
+                continue
+            h = _single_assign(fn, x)
+            if h is None or not (isinstance(h[2].value, ast.List) and
+                                 not h[2].value.elts):
+                continue
+            blk, i, st = h
+            fin = [(k, s_) for k, s_ in enumerate(blk) if k > i and
+                   isinstance(s_, ast.AugAssign) and isinstance(
+                       s_.op, ast.Add) and isinstance(s_.value, ast.Name)
+                   and s_.value.id == x]
+            if len(fin) != 1:
+                continue
+            k, fs = fin[0]
+            y = fs.target
+            ytext = _n(y)
+            ok = True
+            for n in _own_nodes(fn):
+                if isinstance(n, ast.Name) and n.id == x and n is not \
+                        st.targets[0] and n is not fs.value:
+                    # must be the receiver of append/extend or a += target
+                    inside = any(n is z for s_ in blk[i + 1:k]
+                                 for z in ast.walk(s_))
+                    if not inside:
+                        ok = False
+            for s_ in blk[i + 1:k]:
+                for z in ast.walk(s_):
+                    if isinstance(z, ast.Name) and z.id == x:
+                        pz = None
+                        for w in ast.walk(s_):
+                            for ch in ast.iter_child_nodes(w):
+                                if ch is z:
+                                    pz = w
+                        if not ((isinstance(pz, ast.Attribute) and pz.attr in
+                                 ('append', 'extend')) or isinstance(
+                                     pz, ast.AugAssign)):
+                            ok = False
+                    if isinstance(z, ast.expr) and _n(z) == ytext:
+                        ok = False          # Y touched in between
+            if not ok:
+                continue
+
+            class RY(ast.NodeTransformer):
+                def visit_Name(self, node):
+                    if node.id == x:
+                        new = copy.deepcopy(y)
+                        new.ctx = type(node.ctx)()
+                        return ast.copy_location(new, node)
+                    return node
+            for j in range(i + 1, k):
+                blk[j] = RY().visit(blk[j])
+            del blk[k]
+            del blk[i]
+            log.append('%s: accumulator %s merged into %s' % (q, x, ytext))
+            done = True
+            break
+        if not done:
+            break
+    ast.fix_missing_locations(fn)
+
+
 def _merge_forwarded_locals(fn, rf, log, q):
     """A local X the reference does not know whose only read is in
     `Y = <expr of X>` (Y a recorded local not live in between) is Y under
@@ -1602,6 +1727,24 @@ def _merge_forwarded_locals(fn, rf, log, q):
             blk, k, st = host
             y = st.targets[0].id
             if y == x or y not in ref_locs:
+                continue
+            # only `Y = X` or `Y = X[...]` (a selection of X) forwards X
+            root = st.value
+            while isinstance(root, (ast.Subscript, ast.Attribute)):
+                root = root.value
+            if root is not loads[0]:
+                continue
+            # every binding of X happens in the same loop iteration as the
+            # forwarding statement (same enclosing loops)
+            def loops_of(node):
+                out = []
+                for l in _own_nodes(fn):
+                    if isinstance(l, (ast.For, ast.While)) and any(
+                            z is node for b_ in (l.body, l.orelse)
+                            for s_ in b_ for z in ast.walk(s_)):
+                        out.append(id(l))
+                return sorted(out)
+            if any(loops_of(n) != loops_of(loads[0]) for n in stores):
                 continue
             first = min(n.lineno for n in stores)
             # Y must not be used between the first binding of X and the
@@ -1963,6 +2106,7 @@ def canonicalise(tree, modname, text=None):
         _orient_ifs(fn, rf, log, q)
         _loops_to_reference(fn, rf, log, q)
         _SplitTupleAssign().visit(fn)
+        _merge_accumulators(fn, rf, log, q)
         _merge_forwarded_locals(fn, rf, log, q)
         _dissolve_built_locals(fn, rf, log, q)
         _inline_indexed_comprehensions(fn, rf, log, q)
